@@ -216,6 +216,11 @@ def source(shape, variant, uid):
         lines.append("globals().update(make())")
     if any(c.get("lt") for c in shape["classes"]):
         lines += ["", f"class LateTop{uid}(Schema):", "    m: int", ""]
+    if variant["style"] == "module":
+        # a string that names a class which ALREADY exists means that class, like the direct reference - also when the
+        # module binds the name to something else before the function is first used
+        lines += ["", f"class Reb{uid}(Schema):", "    m: int", "", "@parse", f"def fr(*xs: 'Reb{uid}', **kw: 'Reb{uid}') -> 'Reb{uid}':",
+                  "    return dict(m='9')", "", f"RebFirst = Reb{uid}", f"class Reb{uid}(Schema):", "    other: str = 'rebound'", ""]
     return "\n".join(lines), names, (late or variant["style"] in ("future",), nondirect or variant["style"] != "module")
 
 
@@ -556,6 +561,11 @@ def run_case(case, ctx):
                     if not o4.ok or [tuple(x) for x in o4.value] != exp4:
                         problems = ("kwargs-function", "fk", {"z": {"m": "3"}, "y": {"m": 4}}, exp4, o4, rep)
                         break
+            if not problems and "fr" in ns:
+                o5 = run(lambda: (type(ns["fr"]({"m": "1"}, k={"m": 2})) is ns["RebFirst"], dict(ns["fr"]())))
+                ctx.count("parses")
+                if not o5.ok or o5.value != (True, {"m": 9}):
+                    problems = ("rebound-name", "fr", {"m": "1"}, (True, {"m": 9}), o5, 1)
             if problems:
                 kind, ci, data, exp, out, rep = problems
                 mech = mechanism(shape, variant, names, out)
